@@ -27,7 +27,7 @@ def rand_cut_gate(rng, qubits, allow_big):
     return {"name": nm, "qubits": qubits}
 
 
-def gen_problem(rng, max_q=5, max_cuts=2, allow_big=True, moves=False, idle_ok=True, depth=8):
+def gen_problem(rng, max_q=5, max_cuts=2, allow_big=True, moves=False, idle_ok=True, depth=8, idle_obs=False):
     nq = rng.choice([1] + list(range(2, max_q + 1)) * 3)
     nidle = rng.choice([0, 0, 0, 1]) if (nq > 1 and idle_ok) else 0
     idle = sorted(rng.sample(range(nq), nidle))
@@ -75,6 +75,11 @@ def gen_problem(rng, max_q=5, max_cuts=2, allow_big=True, moves=False, idle_ok=T
     obs = gen.rand_paulis(rng, nq, nobs, rng.choice(["IIXYZ", "IZ", "XYZ", "IXYZ"]))
     for o in obs:
         o["l"] = "".join("I" if q in idle else c for q, c in enumerate(o["l"]))
+    if idle_obs and idle and rng.random() < 0.6:
+        # one observable acts on an idle qubit (X, Y or Z there): to be refused, or evaluated on |0> (never silently dropped)
+        o = rng.choice(obs)
+        q = rng.choice(idle)
+        o["l"] = o["l"][:q] + rng.choice("XYYZ") + o["l"][q + 1:]
     if rng.random() < 0.3:
         obs.append(dict(rng.choice(obs)))
     if rng.random() < 0.15:
@@ -104,6 +109,9 @@ def gen_chain_problem(rng):
     links = [(k, k + 1) for k in range(npart - 1)][::-1]
     for j, (a, b) in enumerate(links):
         g = dict(fams[j % len(fams)])
+        if "params" in g and rng.random() < 0.5:
+            # whole-turn and multi-turn angles (the half-angle decompositions are 4*pi-periodic for the controlled rotations)
+            g["params"] = [rng.choice([1, -1]) * (2 * math.pi * rng.randint(1, 3) + rng.choice([0.0, 0.7, 1.9, math.pi / 2, math.pi]))]
         g["qubits"] = [rng.choice(groups[a]), rng.choice(groups[b])]
         if rng.random() < 0.5:
             g["qubits"].reverse()
